@@ -46,6 +46,14 @@ func sanitizeLangSys(langSys *tables.LangSys, featuresCount int) {
 		// invalid index : replace it by the sentinel value
 		langSys.RequiredFeatureIndex = 0xFFFF
 	}
+	// remove the invalid feature indices
+	valid := langSys.FeatureIndices[:0]
+	for _, index := range langSys.FeatureIndices {
+		if int(index) < featuresCount {
+			valid = append(valid, index)
+		}
+	}
+	langSys.FeatureIndices = valid
 }
 
 type Script struct {
